@@ -15,7 +15,7 @@ ASSUME = [
     "roll-up oracle at every nesting level: container scheduled <=> all children scheduled; then start = earliest child start and end = latest child end",
     "the ledger may contain leaf tasks and leaf resources only",
 ]
-KINDS = ["ok", "cyc", "dead", "ms"]
+KINDS = ["ok", "cyc", "dead", "ms", "grp"]
 DATED = [None, "start", "both", "end"]
 
 
@@ -51,7 +51,7 @@ def universe(tier):
             for kinds in itertools.product(KINDS, repeat=nl):
                 for dated in DATED:
                     for alap in (False, True):
-                        if tier == "quick" and n == 4 and alap and dated:
+                        if tier == "quick" and n == 4 and (dated or (alap and "grp" not in kinds)) and len(set(kinds)) > 2:
                             continue
                         yield {"f": f, "kinds": kinds, "dated": dated, "alap": alap}
 
@@ -80,7 +80,7 @@ def to_spec(it):
                     node["milestone"] = True
                 else:
                     node["effort"] = 90
-                    node["alloc"] = ["rdead" if k == "dead" else "r1"]
+                    node["alloc"] = ["rdead" if k == "dead" else ("team" if k == "grp" else "r1")]
                     if k == "cyc":
                         node["deps"] = ["!" + tid]
             out.append(node)
@@ -88,7 +88,8 @@ def to_spec(it):
 
     f = tuple(tuple_to(t) for t in it["f"]) if isinstance(it["f"], list) else it["f"]
     return {"alap": it["alap"],
-            "resources": [{"id": "r1"}, {"id": "rdead", "leaves": [{"k": "leaves", "type": "annual", "a": "2025-01-01", "b": "2026-01-01"}]}],
+            "resources": [{"id": "r1"}, {"id": "rdead", "leaves": [{"k": "leaves", "type": "annual", "a": "2025-01-01", "b": "2026-01-01"}]},
+                          {"id": "team", "children": [{"id": "m1"}, {"id": "m2"}]}],
             "tasks": mk(f)}
 
 
